@@ -72,6 +72,11 @@ CLAIMS = {
         "note": "Relative to the documented meaning of the core operators. Search preference among overlapping alternatives is re's rule. Trusts ast, /verif/sa.",
         "technique": "finite-language enumeration of the constructors' denotation + table exhaustiveness (every format token has a handler)",
     },
+    "C06": {
+        "text": "Constants: the 27 constant classes and 20 tokens are folded from the AST and turned into interval sets over all of Unicode by CPython's regex parser - twin agreement, polarity, documented denotation. Computed constructors: the text AnyFrom/AnyButFrom/AnyBetween/AnyButBetween hand to the class pipeline is obtained by abstract interpretation for every ASCII character (as member, as range start, as range end), all pairs of syntax characters, representatives beyond ASCII and all 20 token instances; it must denote the requested set for re AND be read back unchanged by the pipeline's own reader (interpreted); writer/reader escape tables are compared as sets; twins; argument validation.",
+        "note": "Not decided: the run-time pipeline after the reader (__chars_to_ranges merging, shorthand substitution, one-character collapse) - data-dependent loops over run-time sets. Trusts ast, re._parser, /verif/sa, spec/class_sets.py (our reading of the documentation).",
+        "technique": "regex-constant ASTs as interval sets + writer/reader table agreement + abstract interpretation of the constructors against the interpreted reader",
+    },
 }
 
 NOT_APPLICABLE = {
